@@ -39,7 +39,7 @@ RULE = (
 )
 TRUSTED = [
     "Lean 4 kernel",
-    "the ASCII restriction of the parser model (non-ASCII strings only in the totality stream)",
+    "the ASCII restriction of the parser model (non-ASCII strings: totality, and names in other scripts against their ASCII counterparts)",
     "Python's str.split / str.isidentifier / int() on ASCII input as modelled",
 ]
 
@@ -225,6 +225,18 @@ def run(tier, seed, out, drv, facts):
         out.case(("item", repr(item)), True)
         if k != "VAL":
             out.violation(f"item-shape:{k}", f"Float[{item!r}] must be rejected with ValueError but is {k}", {"item": repr(item)})
+    # axis names are whatever Python calls an identifier: a name that starts with a letter outside ASCII is a NAME like any
+    # other (same exception or same acceptance vector as the token with an ASCII name that is bound nowhere)
+    uni = ["\u03b1", "\u00e9t\u00e9", "\u65e5\u672c", "\u0394t", "\u00df", "na\u00efve"]
+    forms = ["{}", "#{}", "*{}", "*#{}", "#*{}", "_{}", "?{}", "*?{}", "#?{}", "doc={}", "doc=?{}", "{} {}", "{} 2", "*{} 3", "... {}", "{}+1", "2*{}"]
+    for form in forms:
+        ref = observe(form.replace("{}", "zq"))
+        for nm in uni:
+            spec = form.replace("{}", nm)
+            o = observe(spec)
+            out.case(("unicode-name", spec), True, sample={"spec": spec, "observed": o, "ascii_counterpart": ref})
+            if o != ref:
+                out.violation(f"unicode-name:{form}", f"Float[A, {spec!r}] gives {o} but the same token with an ASCII name gives {ref}: names are identifiers, in any script", {"spec": spec, "a": spec})
     exotic = ["é", "a b", "١٢", "a²", " a", "x" * 300, "((((", "a+", "1_000", "-3", "+2", "0x10", "1e3", "a.b", "'", '"', "{", "}", "{n", "a b\x00", "\\", "a=b=c", "=", "=="]
     for _ in range(30000 if thorough else 300):
         exotic.append("".join(rng.choice(list("ab1 #*_?=.,()+-{}'\"\\\t\néʼ٣")) for _ in range(rng.rng(0, 8))))
